@@ -31,7 +31,9 @@ CONFIGS = [
     ('hierarchical', 'd', 'mix'), ('hybrid', 'a', 'core'),
     ('hybrid', 'c', 'erase'), ('hybrid', 'b', 'elim'),
     ('hierarchical', 'e', 'arith'), ('hierarchical', 'f', 'late'),
-    ('hybrid', 'f', 'late'),
+    ('hybrid', 'f', 'late'), ('hierarchical', 'f', 'latemix'),
+    ('hierarchical', 'n', 'latemix'), ('hierarchical', 'n', 'all'),
+    ('hierarchical', 'a', 'all'),
 ]
 
 
